@@ -146,7 +146,17 @@ func c13Run(e *Env) {
 		if m.Code < 1 || m.Code > 4 {
 			return
 		}
-		outcome := t.Weighted(5, 1, 2, 1, 1)
+		if b2, ok := m.OptUint(OptBlock2); ok && b2>>4 >= 1 {
+			// continuation request of a two-block download: the final block (sometimes never)
+			if t.Chance(3, 4) {
+				reply(0x45, []WOpt{UintOpt(OptBlock2, BlockOpt(b2>>4, false, 0))}, Body(7, 9), "final-block")
+			}
+			return
+		}
+		outcome := t.Weighted(5, 1, 2, 1, 1, 2)
+		if outcome == 5 && !bw {
+			outcome = 0
+		}
 		var opts []WOpt
 		if _, isObs := m.OptUint(OptObserve); isObs {
 			opts = append(opts, UintOpt(OptObserve, 4))
@@ -174,6 +184,10 @@ func c13Run(e *Env) {
 			if IsDatagram(tr) && m.Type == TCON {
 				w.Queue(&WMsg{Type: TRST, Code: 0, MID: m.MID}, "reset")
 			}
+		case 5:
+			// the first block of a two-block body: the connection asks for the rest
+			e.Probe("download.twoBlocks")
+			reply(0x45, append(opts, UintOpt(OptBlock2, BlockOpt(0, true, 0))), Body(6, 16), "first-block-of-two")
 		case 4:
 			// a block-wise answer with a nonsensical block option (more blocks announced, block number far off)
 			reply(0x45, append(opts, UintOpt(OptBlock2, BlockOpt(900, true, 2)), UintOpt(OptSize2, 70000)), Body(5, 64), "malformed-block-answer")
@@ -340,14 +354,16 @@ func c13Run(e *Env) {
 				hadObserve = true
 			}
 		}
-		for _, k := range []string{"tokenHandlers", "midHandlers", "msgIDLocks", "bwSending", "limiterEndpoints", "limiterWaiters"} {
-			if k == "bwSending" && hadObserve {
+		// (every exchange of this scenario is one the connection initiated: what has been collected of a block-wise
+		// response belongs to the call that asked for it and goes when the call ends, whatever its deadline was)
+		for _, k := range []string{"tokenHandlers", "midHandlers", "msgIDLocks", "bwSending", "bwReceiving", "limiterEndpoints", "limiterWaiters"} {
+			if (k == "bwSending" || k == "bwReceiving") && hadObserve {
 				// a block-wise notification makes the library fetch the rest with a request of its own (fresh
 				// token, bounded by the transfer timeout): that internal exchange may still be under way
 				continue
 			}
 			if n, ok := now[k]; ok && n != 0 {
-				rule := map[string]string{"tokenHandlers": "C13.R1", "midHandlers": "C13.R2", "msgIDLocks": "C13.R4", "bwSending": "C13.R5", "limiterEndpoints": "C13.R6", "limiterWaiters": "C13.R6"}[k]
+				rule := map[string]string{"tokenHandlers": "C13.R1", "midHandlers": "C13.R2", "msgIDLocks": "C13.R4", "bwSending": "C13.R5", "bwReceiving": "C13.R5", "limiterEndpoints": "C13.R6", "limiterWaiters": "C13.R6"}[k]
 				e.Violate(rule, "table-not-empty-after-return:"+k, "table %s still holds %d entries right after every call has returned", k, n)
 			}
 		}
